@@ -51,6 +51,7 @@ type EDelete struct {
 	VotesPost      string   `json:"votes_post"`
 	TempIDs        []string `json:"temp_ids"`
 	TempOK         *bool    `json:"temp_ok"`
+	FlushDiff      []string `json:"flush_diff"` // keys reading differently after a forced memtable flush (nil: no flush forced)
 }
 
 type ETwin struct {
@@ -80,16 +81,18 @@ type ERestart struct {
 }
 
 type EHist struct {
-	K           string        `json:"k"`
-	Seed        uint64        `json:"seed"`
-	Idx         uint64        `json:"idx"`
-	GenesisTime uint32        `json:"genesis_time"`
-	Keep        int           `json:"keep"`
-	MaxCache    int           `json:"maxcache"`
-	NVals       int           `json:"nvals"`
-	Steps       []interface{} `json:"steps"`
-	Twin        *ETwin        `json:"twin"`
-	Restart     *ERestart     `json:"restart"`
+	K              string        `json:"k"`
+	Seed           uint64        `json:"seed"`
+	Idx            uint64        `json:"idx"`
+	GenesisTime    uint32        `json:"genesis_time"`
+	Keep           int           `json:"keep"`
+	MaxCache       int           `json:"maxcache"`
+	NVals          int           `json:"nvals"`
+	Steps          []interface{} `json:"steps"`
+	Twin           *ETwin        `json:"twin"`
+	Restart        *ERestart     `json:"restart"`
+	FlushEvery     bool          `json:"flush_every"`
+	FinalFlushDiff []string      `json:"final_flush_diff"`
 }
 
 type EDup struct {
